@@ -568,19 +568,107 @@ def describe_seq(c):
                        "partitions": len(st["partitions"] or [])} for st in c["steps"]]}
 
 
+# ---------------------------------------------------------------------------------------------
+# "hcall" cases: the value a documented helper returns (hcall <helper> + the rest of a render line)
+# ---------------------------------------------------------------------------------------------
+HELPERS = ["topicsbystatus", "topicsbystatus", "partitioncounts", "maxlag", "arith"]
+TOPIC_POOL = ["orders", "payments", "audit-log", "t3"]
+
+
+def gen_hcall(rng):
+    """Statuses whose partitions come from a few topics in several states: a topic usually has partitions in two or more
+    different states (orders:0 STOP, orders:1 STALL ...), sometimes several in the same state."""
+    c = gen_case(rng, TEMPLATES[0], "wf")
+    c["kind"], c["mode"] = "hcall", "hcall"
+    c["helper"] = rng.choice(HELPERS)
+    n = rng.choice([0, 1, 2, 3, 4, 6, 8])
+    topics = rng.sample(TOPIC_POOL, rng.randrange(1, 4))
+    parts = []
+    for i in range(n):
+        p = gen_partition(rng, False, status=rng.choice([2, 4, 5, 6, 4, 5, 1, 3, 100, -1]))
+        p["topic"], p["partition"] = rng.choice(topics), i
+        parts.append(p)
+    c["partitions"] = parts
+    c["maxlag"] = rng.choice(parts) if parts and rng.random() < 0.8 else (gen_partition(rng, False, status=1) if rng.random() < 0.3 else None)
+    c["total_partitions"] = rng.choice([0, 1, 6, 7, 8, 13, 1000, n])
+    return c
+
+
+def fmt_hcall(c):
+    return "hcall " + c["helper"] + " " + fmt_case(c)[len("render "):]
+
+
+def parse_hcall(line):
+    f = line.split(" ", 2)
+    c = parse("render " + f[2])
+    c["kind"], c["helper"] = "hcall", f[1]
+    return c
+
+
+def _godiv(a, b):
+    q = abs(a) // abs(b)
+    return q if (a >= 0) == (b >= 0) else -q
+
+
+def hcall_expected(c):
+    """The documented meaning, from the status alone."""
+    parts = [p for p in (c["partitions"] or [])]
+    h = c["helper"]
+    if any(p is None for p in parts):
+        return None
+    if h == "topicsbystatus":
+        m = {}
+        for p in parts:
+            m.setdefault(STATUS.get(p["status"], "UNKNOWN"), set()).add(p["topic"].decode() if isinstance(p["topic"], bytes) else p["topic"])
+        return "OK " + ";".join(sorted("%s=%s" % (k, ",".join(sorted(v))) for k, v in m.items()))
+    if h == "partitioncounts":
+        key = {2: "warn", 4: "stop", 5: "stall", 6: "rewind"}
+        m = {"warn": 0, "stop": 0, "stall": 0, "rewind": 0, "unknown": 0}
+        for p in parts:
+            if p["status"] != 1:
+                m[key.get(p["status"], "unknown")] += 1
+        return "OK " + ";".join(sorted("%s=%d" % kv for kv in m.items()))
+    if h == "maxlag":
+        return "OK %d" % (c["maxlag"]["lag"] if c["maxlag"] is not None else 0)
+    a = c["total_partitions"]
+    return "OK %d %d %d %d" % (a + 7, a - 7, a * 7, _godiv(a, 7))
+
+
+def hcall_oracle(c, impl_line):
+    want = hcall_expected(c)
+    if want is None or impl_line == want:
+        return []
+    return ["the documented helper %s does not return its documented value for this status: got %r, documented %r"
+            % (c["helper"], impl_line[:300], want[:300])]
+
+
+def describe_hcall(c):
+    d = describe(c)
+    d["helper"] = c["helper"]
+    d["listed"] = ["%s:%d %s" % (p["topic"].decode() if isinstance(p["topic"], bytes) else p["topic"], p["partition"],
+                                  STATUS.get(p["status"], str(p["status"]))) for p in (c["partitions"] or []) if p]
+    return d
+
+
 def parse_any(line):
+    if line.startswith("hcall "):
+        return parse_hcall(line)
     if line.startswith("seq "):
         return parse_seq(line)
     return parse_conf(line) if line.startswith("conf ") else parse(line)
 
 
 def oracle_any(c, impl_line):
+    if c.get("kind") == "hcall":
+        return hcall_oracle(c, impl_line)
     if c.get("kind") == "seq":
         return seq_oracle(c, impl_line)
     return conf_oracle(c, impl_line) if c.get("kind") == "conf" else oracle(c, impl_line)
 
 
 def describe_any(c):
+    if c.get("kind") == "hcall":
+        return describe_hcall(c)
     if c.get("kind") == "seq":
         return describe_seq(c)
     return describe_conf(c) if c.get("kind") == "conf" else describe(c)
